@@ -13,6 +13,12 @@ fn ops_for(p: &Proto, mode: Mode) -> Vec<Op> {
     sess::full_session_ops(p, &[2, 2, 2, 2], mode, &[Side::I, Side::R], &[3, 3])
 }
 
+/// the same session with every payload empty: every encrypted field is then a bare tag, and a backend that
+/// treats "nothing to decrypt" as "nothing to verify" lets differing peers through
+fn ops_empty(p: &Proto, mode: Mode) -> Vec<Op> {
+    sess::full_session_ops(p, &[0, 0, 0, 0], mode, &[Side::I, Side::R], &[0, 0])
+}
+
 /// (signature, detail) if the two differently configured peers end up with a working channel.
 /// Runs that contain deliberately failing local calls (the retry variants) are judged on the second clause
 /// only - a transport message accepted - because "completes without an error" does not apply to them.
@@ -207,7 +213,7 @@ fn items_for(p: &Proto, deep: bool) -> Vec<Item> {
 pub fn run(tier: Tier) -> i32 {
     let ctx = Ctx::new("C08", tier, "model_checking");
     let quick = ctx.quick();
-    ctx.set_rule("case = (protocol name, one context item made different between the peers: the hashed name string only (one character, appended/removed character, case, psk modifier order), the hash or cipher component, one prologue bit / length (6 prologues incl. empty and longer than a hash block), one bit of one psk, a different valid pre-shared static key on either side, a static key that is not the pre-shared one); a psk replaced through set_psk after building (one side / both sides differently); the same differences in sessions where every handshake step is first attempted wrongly and then repeated; pairs of items in thorough. Oracle: never both complete without an error, and no transport message accepted; control: the equal configuration completes. non-trivial = both sides could be built and the run executed");
+    ctx.set_rule("case = (protocol name, one context item made different between the peers: the hashed name string only (one character, appended/removed character, case, psk modifier order), the hash or cipher component, one prologue bit / length (6 prologues incl. empty and longer than a hash block), one bit of one psk, a different valid pre-shared static key on either side, a static key that is not the pre-shared one); sessions with 2-3 byte payloads and with all payloads empty; a psk replaced through set_psk after building (one side / both sides differently); the same differences in sessions where every handshake step is first attempted wrongly and then repeated; pairs of items in thorough. Oracle: never both complete without an error, and no transport message accepted; control: the equal configuration completes. non-trivial = both sides could be built and the run executed");
     let mut protos: Vec<(Proto, bool)> = vec![];
     for (k, p) in patterns::all_protos().into_iter().enumerate() {
         // all 13 344 names get the reduced alphabets in thorough; quick: the 25519/ChaChaPoly/SHA256 suite + every 12th name
@@ -239,7 +245,8 @@ pub fn run(tier: Tier) -> i32 {
             return;
         }
         let items = items_for(p, *deep);
-        for it in &items {
+        let eops = ops_empty(p, if p.n_msgs() % 2 == 0 { Mode::TS } else { Mode::ST });
+        for (k, it) in items.iter().enumerate() {
             ctx.add(&ctx.evaluations, 1);
             ctx.add(&ctx.transitions, ops.len() as u64);
             ctx.add(&ctx.traces, 1);
@@ -247,6 +254,16 @@ pub fn run(tier: Tier) -> i32 {
             ctx.count(it.what, 1);
             if let Some((sig, d)) = judge(&it.cfg, &ops, it.what) {
                 ctx.violation(sig, d, json!({"kind": "c08", "config": it.cfg, "ops": ops, "what": it.what}));
+            }
+            // all-empty payloads: every item on the deep set, every third elsewhere
+            if *deep || k % 3 == 0 {
+                ctx.add(&ctx.evaluations, 1);
+                ctx.add(&ctx.transitions, eops.len() as u64);
+                ctx.add(&ctx.traces, 1);
+                ctx.count("all-empty payloads", 1);
+                if let Some((sig, d)) = judge(&it.cfg, &eops, it.what) {
+                    ctx.violation(format!("{sig} (all payloads empty)"), d, json!({"kind": "c08", "config": it.cfg, "ops": eops, "what": it.what}));
+                }
             }
         }
         // (vi) a psk replaced after building, through HandshakeState::set_psk, on one side or (differently) on both
